@@ -34,6 +34,7 @@ TAnswerOf(idx, q, p) == [idx |-> idx, q |-> q, p |-> p]
 TSigOf(idx, s) == [idx |-> idx, q |-> s, p |-> TRUE]
 TSigConstrained(s) == TRUE
 TTypedOf(idx, l) == [idx |-> idx, q |-> l, p |-> TRUE]
+TTextOf(idx, t) == [idx |-> idx, q |-> t, p |-> FALSE]
 TBeginOf(idx, fr, p) == [idx |-> idx, fr |-> fr, p |-> p, n |-> 0]
 TStepOf(it) == [yield |-> it, it |-> [it EXCEPT !.n = @ + 1]]
 TWrittenOk(src, w) == w = src
@@ -43,7 +44,7 @@ VARIABLES objs, handles, files, iters, prog
 S == INSTANCE System WITH
        SectionOf <- TSectionOf, RangeOk <- TRangeOk, IndexOf <- TIndexOf, InDomainOf <- TInDomainOf,
        MetaOf <- TMetaOf, UuidOf <- TUuidOf, AnswerOf <- TAnswerOf, SigOf <- TSigOf,
-       SigConstrained <- TSigConstrained, TypedOf <- TTypedOf, BeginOf <- TBeginOf, StepOf <- TStepOf,
+       SigConstrained <- TSigConstrained, TypedOf <- TTypedOf, TextOf <- TTextOf, BeginOf <- TBeginOf, StepOf <- TStepOf,
        WrittenOk <- TWrittenOk
 
 vars == <<objs, handles, files, iters, prog>>
@@ -87,6 +88,8 @@ Next ==
           Has({"query"}) /\ handles[h] # S!NoObj /\ S!Sig(h, 1, TSigOf(handles[h].index, 1)) /\ Log("sig", h, 1, 0)
      \/ \E h \in IdsOf :
           Has({"query"}) /\ handles[h] # S!NoObj /\ S!Typed(h, 1, TTypedOf(handles[h].index, 1)) /\ Log("typed", h, 1, 0)
+     \/ \E h \in IdsOf :
+          Has({"query"}) /\ handles[h] # S!NoObj /\ S!Text(h, 1, TTextOf(handles[h].index, 1)) /\ Log("text", h, 1, 0)
      \/ \E i, h \in IdsOf, fr \in 1..NFrame :
           Has({"query"}) /\ Fresh(iters, i) /\ S!IterBegin(i, h, fr) /\ Log("begin", i, h, fr)
      \/ \E i \in IdsOf :
@@ -100,7 +103,7 @@ FilesAgree == \A f, g \in IdsOf : (files[f] # S!NoObj /\ files[g] # S!NoObj /\ f
 HandlesFromObjects == \A h \in IdsOf : handles[h] # S!NoObj => handles[h].kind \in {"mapper", "cache"}
 \* a program that ends with the creation of an object observes nothing its prefixes do not: only programs
 \* ending in a call with an answer are printed
-Observations == {"meta", "uuid", "write", "writefail", "parse", "q", "sig", "typed", "next"}
+Observations == {"meta", "uuid", "write", "writefail", "parse", "q", "sig", "typed", "text", "next"}
 Emit == (Len(prog) = Depth /\ prog[Depth].t \in Observations) => PrintT("CASE " \o ToJson([prog |-> prog]))
 
 Inv == FilesAgree /\ HandlesFromObjects /\ Emit
